@@ -4,6 +4,7 @@ Oracle: factor_R(a) / factor_R(b), exact Fractions computed by the independent r
 """
 from __future__ import annotations
 
+import contextlib
 import math
 import random
 from decimal import Decimal
@@ -232,6 +233,18 @@ def _entry_points(ureg, nit, x, a, b, ref):
                 got = fn()
                 if not np.allclose(got, want, rtol=1e-12, atol=0):
                     raise Violation(f"entry_points_disagree:{what.split('(')[0]}:ndarray", f"{what} {a} -> {b}: {got!r}, expected {want!r}")
+            # a conversion that is not asked to work in place leaves its source alone - also while a context is active (rules of a context
+            # never apply inside one dimension) and when asked twice
+            for what, ctxs in (("to(ndarray)", ()), ("to(ndarray, in context)", ("sp",)), ("convert(ndarray, in context)", ("sp", "boltzmann"))):
+                src = arr.copy()
+                qsrc = Q(src, a)
+                with ureg.context(*ctxs) if ctxs else contextlib.nullcontext():
+                    outs = [ureg.convert(src, a, b) if what.startswith("convert") else qsrc.to(b).magnitude for _ in range(2)]
+                if not np.array_equal(src, arr) or dict(qsrc._units) != dict(Q(1, a)._units):
+                    raise Violation(f"conversion_modified_its_source:{what.split('(')[0]}{':context' if ctxs else ''}", f"{what} {a} -> {b}: the source array {arr!r} [{a}] is now {src!r} [{qsrc.units}]")
+                for got in outs:
+                    if not np.allclose(got, want, rtol=1e-12, atol=0):
+                        raise Violation(f"entry_points_disagree:{what.split('(')[0]}:ndarray{':context' if ctxs else ''}", f"{what} {a} -> {b}: {got!r}, expected {want!r}")
             # integer arrays cannot hold a converted value in place: numpy's casting error or a correct result, never truncated numbers
             iarr = np.array([1500, 250, 3])
             for what, fn in (("ito(int ndarray)", lambda: (lambda qq: (qq.ito(b), qq.magnitude)[1])(Q(iarr.copy(), a))), ("convert(int ndarray,inplace)", lambda: ureg.convert(iarr.copy(), a, b, inplace=True))):
